@@ -79,7 +79,7 @@ OTHER_FORMS = [  # (ddl, expected type (white space removed), expected size)
     ("varchar(10)", "varchar", 10), ("decimal(10,2)", "decimal", [10, 2]), ("numeric (12, 4)", "numeric", [12, 4]), ("varchar(max)", "varchar", "max"),
     ("varchar2(30 CHAR)", "varchar2", "30 CHAR"), ("number(*,2)", "number", ["*", 2]), ("int[]", "int[]", None), ("varchar(5)[]", "varchar[]", 5),
     ("double precision", "doubleprecision", None), ("character varying(20)", "charactervarying", 20), ("timestamp without time zone", None, None),
-    ("text[][]", "text[][]", None),
+    ("text[][]", "text[][]", None), ("timestamp(0)", "timestamp", 0), ("time(0)", "time", 0), ("decimal(0,0)", "decimal", [0, 0]), ("float(0)", "float", 0),
 ]
 OPTS = [("", {}), (" NOT NULL", {"nullable": False}), (" DEFAULT 'x'", {"default": "'x'"}), (" COMMENT 'c c'", {"comment": "'c c'"})]
 
@@ -145,9 +145,12 @@ def run(tier, seed):
         r = F.mc(F.consts(tb, [template(s, []) for s, _ in devs[:40]]), "first type token contains `>` (other invariants)", invs=["DepthTracked", "CommaInAngle", "TypeClosed"])
         states += r.distinct
         trans += r.generated
-    F.mc(F.consts(tb, batch[:10] + [[("kw", kw("CREATE")), ("kw", kw("SEQUENCE")), ("name", kw("s1"))]], ResetFlags='AllFlags \\ {"lt_open"}'), "lt_open not reset", invs=["FreshAtStart"],
-         expect="FreshAtStart") if False else None
-    cov["negative_controls"] = ["TypeStartsLT is refuted exactly on the spellings whose first token contains `>` (as-built deviation angleRT)"]
+    view = [("kw", kw("CREATE")), ("id", kw("VIEW")), ("name", kw("v0")), ("kw", kw("AS")), ("id", kw("SELECT")), ("id", kw("a")), ("id", kw("WHERE")), ("id", kw("a")), ("id", kw(">")), ("id", kw("0"))]
+    r = F.mc(F.consts(tb, batch[:6] + [view]), "statement sequences incl. a stray `>` (flags reset)", invs=["FreshAtStart", "DepthTracked"])
+    states += r.distinct
+    trans += r.generated
+    F.mc(F.consts(tb, batch[:3] + [view], ResetFlags='AllFlags \\ {"lt_open"}'), "lt_open not reset", invs=["FreshAtStart"], expect="FreshAtStart")
+    cov["negative_controls"] = ["ResetFlags without lt_open refutes FreshAtStart", "TypeStartsLT is refuted exactly on the spellings whose first token contains `>` (as-built deviation angleRT)"]
     # ---- drift: templates through the real lexer ---------------------------------------------------------------------------------
     g_beh = []
     for k in range(0, len(batch), 60):
@@ -174,7 +177,9 @@ def run(tier, seed):
     for s, ety, esz, pos, otxt, oexp, tag in cases:
         cols = ["p1 int NOT NULL", "p2 varchar(7)"]
         cols.insert(pos, f"focus {s}{otxt}")
-        tasks.append(("CREATE TABLE t1 (" + ", ".join(cols) + ");\n", {}, {}))
+        # every third case stands behind an unsupported statement holding a stray `>` (the nesting counter must not leak)
+        pre = "CREATE VIEW v0 AS SELECT a FROM t0 WHERE a > 0;\n" if (len(tasks) % 3 == 0 and not tag) else ""
+        tasks.append((pre + "CREATE TABLE t1 (" + ", ".join(cols) + ");\n", {}, {}))
     outs, nu = C.parse_many(tasks)
     for (s, ety, esz, pos, otxt, oexp, tag), tk, o in zip(cases, tasks, outs):
         case = {"ddl": tk[0], "type": s, "position": pos + 1, "option": otxt.strip(), "spec_dev": sorted(tag)}
